@@ -9,6 +9,7 @@ package main
 // recovery request must be served normally.
 
 import (
+	"bytes"
 	"fmt"
 	"net/http"
 	"strings"
@@ -90,6 +91,15 @@ func runSysFault(x *X) {
 	if c.Intn(4, "p-headers") == 0 {
 		chain = append(chain, config.PluginConfig{Name: "headers", Config: map[string]interface{}{"set": map[string]interface{}{"X-App": "Helios"}}})
 	}
+	withGzip := c.Intn(3, "p-gzip") == 0
+	if withGzip {
+		// a buffering plugin in the path of the faults: whatever a broken exchange leaves behind
+		// in it must not show up in anybody else's response
+		gz := config.PluginConfig{Name: "gzip", Config: map[string]interface{}{"level": float64(-1 + c.Intn(11, "gz-level")), "min_size": float64([]int{0, 16, 4096}[c.Intn(3, "gz-min")]), "content_types": []interface{}{"text/", "application/json"}}}
+		k := c.Intn(len(chain)+1, "gz-pos")
+		chain = append(chain[:k], append([]config.PluginConfig{gz}, chain[k:]...)...)
+		x.Probe("gzip-in-the-path-of-faults")
+	}
 	chain = append(chain, config.PluginConfig{Name: "sim-count"})
 	o.plugins = chain
 	o.logging.RequestID.Enabled = c.Intn(2, "rid") == 1
@@ -133,6 +143,9 @@ func runSysFault(x *X) {
 			ex.chunked = c.Intn(3, "chunked") == 0
 		}
 		ex.newConn = c.Intn(3, "newconn") == 0
+		if withGzip && c.Intn(3, "accept-gzip") != 0 {
+			ex.hdr = append(ex.hdr, hdrKV{"Accept-Encoding", "gzip"})
+		}
 		if ex.method == "GET" && c.Intn(6, "upgrade-request") == 0 {
 			// a protocol-upgrade request (Helios exempts these from the handler timeout, tunnels
 			// being long-lived): whatever the backend does to it, the backend timeouts still apply
@@ -270,6 +283,9 @@ func runSysFault(x *X) {
 		}
 		if faults[i] == "none" && ex.got != nil && ex.got.err == "" && ex.got.status == 200 {
 			x.Probe("clean-exchange-ok")
+			if ex.resp != nil && ex.method != "HEAD" {
+				checkCleanBody(x, ex, "clean exchange between faults", faults)
+			}
 		}
 	}
 	_ = ok
@@ -310,17 +326,22 @@ func runSysFault(x *X) {
 			ex.pause = time.Duration(o.limiter.RefillRate)*time.Second + time.Millisecond // never outrun the refill
 		}
 		ex.resp = &respScript{status: 200, framing: "cl", hdr: []hdrKV{{"Content-Type", "text/plain"}}, body: []byte(fmt.Sprintf("recovered-%d", i))}
+		if withGzip && i%2 == 0 {
+			ex.hdr = append(ex.hdr, hdrKV{"Accept-Encoding", "gzip"})
+		}
 		recs = append(recs, ex)
 	}
 	env.drive(driveOpts{maxVirtual: 2 * time.Minute})
-	for i, ex := range recs {
+	for _, ex := range recs {
 		st := 0
 		if ex.got != nil {
 			st = ex.got.status
 		}
 		statuses = append(statuses, st)
-		if ex.done && ex.got != nil && ex.got.err == "" && st == 200 && string(ex.got.body) == fmt.Sprintf("recovered-%d", i) {
-			okCount++
+		if ex.done && ex.got != nil && ex.got.err == "" && st == 200 {
+			if checkCleanBody(x, ex, "recovery request", faults) {
+				okCount++
+			}
 		}
 	}
 	last := recs[len(recs)-1]
@@ -371,6 +392,33 @@ func runSysFault(x *X) {
 		x.Probe("accounting-checked")
 	}
 	x.State(o.strategy, strings.Join(faults, ","))
+}
+
+// checkCleanBody: a request that met no fault and was answered 200 "succeeds normally" only if
+// the client can read exactly the backend's body out of it (decoded by the Content-Encoding it
+// was labelled with).
+func checkCleanBody(x *X, ex *exchange, what string, faults []string) bool {
+	body := ex.got.body
+	if strings.EqualFold(strings.Join(ex.got.hdr["Content-Encoding"], ","), "gzip") {
+		dec, err := gunz(body)
+		if err != nil {
+			x.Violate("C03", "C03/response-damaged-after-faults{undecodable}", "%s %d after faults %v: 200 labelled gzip that does not decode: %v", what, ex.id, faults, err)
+			return false
+		}
+		body = dec
+	}
+	if !bytes.Equal(body, ex.resp.body) {
+		x.Violate("C03", "C03/response-damaged-after-faults{body-differs}", "%s %d after faults %v: answered 200 but the body the client reads (%d bytes, %q...) is not the backend's (%d bytes)", what, ex.id, faults, len(body), trunc(string(body), 40), len(ex.resp.body))
+		return false
+	}
+	return true
+}
+
+func trunc(s string, n int) string {
+	if len(s) > n {
+		return s[:n]
+	}
+	return s
 }
 
 func uniq(in []string) []string {
